@@ -203,3 +203,123 @@ m("c07-stepB-default-onsite", ["C07"], "src/wfactors.rs",
   "            if let Some(factors) = fp_a_red_input {\n                // VECTOR, SRC, A_RED, B, ren, nren == VECTOR, RED, SUMINISTRO, A, ren, nren\n                self.ensure_wfactor(\n                    *c,\n                    *s,\n                    A_RED,\n                    B,\n                    factors,",
   "            if let Some(factors) = fp_a_red_input {\n                // VECTOR, SRC, A_RED, B, ren, nren == VECTOR, RED, SUMINISTRO, A, ren, nren\n                self.ensure_wfactor(\n                    *c,\n                    *s,\n                    A_RED,\n                    B,\n                    fp_a_input.unwrap_or(factors) * 3.0,",
   "step B grid export factor = 3 x on-site factor (renewable credit instead of avoided grid resources)")
+
+# ---- C07
+m("c07-ensure-becomes-update-a-red", ["C07"], "src/wfactors.rs",
+  "                // VECTOR, SRC, A_RED, A, ren, nren === VECTOR, SRC, SUMINISTRO, A, ren, nren\n                self.ensure_wfactor(",
+  "                // VECTOR, SRC, A_RED, A, ren, nren === VECTOR, SRC, SUMINISTRO, A, ren, nren\n                self.update_wfactor(",
+  "a user-given A_RED step A factor is overwritten by the default")
+m("c07-user-red1-applied-to-red2", ["C07", "C19"], "src/wfactors.rs",
+  "            (RED2, RED, SUMINISTRO, A, user.red2, \"Factor de usuario\"),",
+  "            (RED2, RED, SUMINISTRO, A, user.red2.or(user.red1), \"Factor de usuario\"),",
+  "user RED1 also used for RED2 when RED2 is not given")
+m("c07-drop-grid-factor-check", ["C07"], "src/wfactors.rs",
+  "        if !has_grid_factors_for_all_carriers {", "        if false && !has_grid_factors_for_all_carriers {",
+  "unusable sets are accepted")
+m("c07-skip-termosolar-exports", ["C07"], "src/wfactors.rs",
+  "            (Carrier::TERMOSOLAR, Source::INSITU),\n        ];", "        ];",
+  "no export factors completed for solar thermal")
+m("c07-find-last-match", ["C07"], "src/wfactors.rs",
+  "        self.wdata\n            .iter()\n            .find(|fp| {\n                fp.carrier == cr && fp.source == source && fp.dest == dest && fp.step == step\n            })",
+  "        self.wdata\n            .iter()\n            .rev()\n            .find(|fp| {\n                fp.carrier == cr && fp.source == source && fp.dest == dest && fp.step == step\n            })",
+  "find returns the last instead of the first matching line (duplicates)")
+m("c07-red-default-wrong", ["C07", "C19"], "src/cte.rs",
+  "    red2: RenNrenCo2::new(0.0, 1.3, 0.3),", "    red2: RenNrenCo2::new(0.0, 1.3, 0.03),", "built-in RED2 default co2 0.03")
+# ---- C10
+m("c10-bom-not-stripped", ["C10"], "src/components.rs",
+  "        let s_no_bom = s.strip_prefix('\\u{feff}').unwrap_or(s);", "        let s_no_bom = s;", "byte-order mark no longer stripped")
+m("c10-header-not-skipped", ["C10"], "src/components.rs",
+  ".filter(|l| !(l.starts_with('#') || l.starts_with(\"vector,\") || l.is_empty()));\n        let cmeta",
+  ".filter(|l| !(l.starts_with('#') || l.is_empty()));\n        let cmeta", "header line no longer skipped")
+m("c10-id-omitted-is-1", ["C10", "C18"], "src/types/energy/used.rs",
+  "            Err(_) => (0, 0_i32),", "            Err(_) => (0, 1_i32),", "consumption lines without id belong to system 1")
+m("c10-first-aux-line-only", ["C10", "C06"], "src/components.rs",
+  "            let aux_tot = veclistsum(\n                &self\n                    .data\n                    .iter()\n                    .filter_map(|c| match c {\n                        Energy::Aux(e) if e.id == id => Some(e.values()),\n                        _ => None,\n                    })\n                    .collect::<Vec<_>>(),\n            );",
+  "            let aux_tot = veclistsum(\n                &self\n                    .data\n                    .iter()\n                    .filter_map(|c| match c {\n                        Energy::Aux(e) if e.id == id => Some(e.values()),\n                        _ => None,\n                    })\n                    .take(1)\n                    .collect::<Vec<_>>(),\n            );",
+  "only the first AUX line of a multi-service system is counted")
+m("c10-negative-ids-merged", ["C10", "C05"], "src/types/energy/prod.rs",
+  "            Ok(id) => (1, id),", "            Ok(id) => (1, if id < -1 { -1 } else { id }),", "production lines with ids below -1 are filed under -1")
+m("c10-trim-missing-crlf", ["C10"], "src/components.rs",
+  "        let lines: Vec<&str> = s_no_bom.lines().map(str::trim).collect();", "        let lines: Vec<&str> = s_no_bom.split('\\n').map(|l| l.trim_matches(' ')).collect();",
+  "lines split on LF and trimmed of spaces only (CR and tabs stay)")
+# ---- C13
+m("c13-rer-ren-over-nren", ["C13", "C02"], "src/types/rennrenco2.rs",
+  "            self.ren / tot\n", "            if self.nren > 0.0 { self.ren / self.nren } else { 1.0 }\n", "rer = ren/nren")
+m("c13-no-zero-guard", ["C13"], "src/types/rennrenco2.rs",
+  "        if tot == 0.0 {\n            0.0\n        } else {", "        if false {\n            0.0\n        } else {", "0/0 when total is zero")
+m("c13-nearby-k-instead-of-1-minus-k", ["C13"], "src/balance.rs",
+  "ren_nrb_cr + ren_el_onst + ren_el_cgn - (1.0 - k_exp) * ren_el_exp_a,", "ren_nrb_cr + ren_el_onst + ren_el_cgn - k_exp * ren_el_exp_a,",
+  "exported resources no longer subtracted from the nearby numerator at k_exp = 0 (masks the two known nrb classes; detectable only where nrb then exceeds rer)")
+m("c13-biomass-onsite", ["C13"], "src/types/carrier.rs",
+  "    pub const ONST: [Carrier; 2] = [Carrier::EAMBIENTE, Carrier::TERMOSOLAR];", "    pub const ONST: [Carrier; 3] = [Carrier::EAMBIENTE, Carrier::TERMOSOLAR, Carrier::GASNATURAL];",
+  "natural gas counted in the on-site perimeter (on-site no longer inside nearby)")
+# ---- C15
+m("c15-aux-subtracted-twice", ["C15"], "src/cte.rs",
+  "            1.0 - (dhw_aux_use_an / dhw_el_used_an)", "            1.0 - 2.0 * (dhw_aux_use_an / dhw_el_used_an)", "auxiliary share counted twice")
+m("c15-ren-fraction-over-nren", ["C15"], "src/cte.rs",
+  "        .map(|f| f.ren / (f.ren + f.nren))", "        .map(|f| if f.nren > 0.0 { (f.ren / f.nren).min(1.0) } else { 1.0 })", "renewable share = ren/nren capped at 1")
+m("c15-only-nearby-ignores-electricity", ["C15"], "src/cte.rs",
+  "        .all(|&c| c.is_nearby());", "        .all(|&c| c.is_nearby() || c == ELECTRICIDAD);", "electricity does not break the single-biomass inference")
+m("c15-low-scop-not-excluded", ["C15"], "src/cte.rs",
+  "                && c.comment().contains(\"CTEEPBD_EXCLUYE_SCOP_ACS\")", "                && c.comment().contains(\"CTEEPBD_EXCLUYE_SCOP_ACS_\")", "low-SCOP exclusion tag no longer recognised")
+m("c15-zero-demand-returns-zero", ["C15"], "src/cte.rs",
+  "    if demanda_anual_acs.abs() < f32::EPSILON {\n        return Err(EpbdError::WrongInput(\n            \"Demanda anual de ACS nula o casi nula\".to_string(),\n        ));\n    };",
+  "    if demanda_anual_acs.abs() < f32::EPSILON {\n        return Ok(0.0);\n    };", "zero demand reports 0 instead of an error")
+m("c15-nepb-electricity-counts", ["C15"], "src/cte.rs",
+  "        .filter(|c| c.is_used() && c.has_service(Service::ACS) && c.has_carrier(ELECTRICIDAD))",
+  "        .filter(|c| c.is_used() && (c.has_service(Service::ACS) || c.has_service(Service::NEPB)) && c.has_carrier(ELECTRICIDAD))",
+  "non-EPB electricity counted as DHW electricity (only matters when the DHW electricity is auxiliary-only)")
+# ---- C16
+m("c16-F6-reverted", ["C16"], "src/types/needs/mod.rs",
+  "        if cur_len.map(|len| len != need.values.len()).unwrap_or(false) {", "        if false && cur_len.map(|len| len != need.values.len()).unwrap_or(false) {", "F6 reverted")
+m("c16-items-index-without-length-check", ["C16"], "src/types/energy/used.rs",
+  "        if items.len() < 4 {\n            return Err(EpbdError::ParseError(s.into()));\n        };",
+  "        if items.len() < 3 {\n            return Err(EpbdError::ParseError(s.into()));\n        };", "a CONSUMO line with id and only three fields indexes out of bounds")
+m("c16-meta-slice-6", ["C16"], "src/types/tmeta.rs",
+  "s.trim()[5..]", "s.trim()[6..]", "metadata prefix assumed 6 bytes long (multi-byte char right after #META, or bare #META)")
+m("c16-unwrap-on-numeric-parse", ["C16"], "src/types/energy/aux.rs",
+  "            .map(|v| v.parse::<f32>())\n            .collect::<Result<Vec<f32>, _>>()\n            .map_err(|_| {\n                EpbdError::ParseError(format!(\"se esperaban valores numéricos en línea `{}`\", s))\n            })?;",
+  "            .map(|v| Ok::<f32, std::num::ParseFloatError>(v.parse::<f32>().unwrap()))\n            .collect::<Result<Vec<f32>, _>>()\n            .map_err(|_| {\n                EpbdError::ParseError(format!(\"se esperaban valores numéricos en línea `{}`\", s))\n            })?;",
+  "AUX values unwrap() their parse")
+m("c16-cli-unwrap-red", ["C16", "C19"], "src/bin/cteepbd.rs",
+  "                    f32::from_str(vv.trim()).unwrap_or_else(|_| {\n                        eprintln!(\"ERROR: factor de paso incorrecto: \\\"{}\\\"\", vv);\n                        exit(exitcode::DATAERR);\n                    })",
+  "                    f32::from_str(vv.trim()).unwrap()", "--red1 / --red2 values unwrap() their parse")
+# ---- C17
+m("c17-F7-reverted", ["C17"], "src/asctexml.rs",
+  "<Demanda><Servicio>CAL</Servicio><Valores>{}</Valores></Demanda>", "<Demanda><Servicio>CAL</Servicio><Valores>{}</Valores>", "F7 reverted for CAL only")
+m("c17-escape-without-amp", ["C17"], "src/asctexml.rs",
+  "            .replace('&', \"&amp;\")\n", "", "& not escaped")
+m("c17-escape-meta-key-missing", ["C17"], "src/asctexml.rs",
+  "            <Self as AsCteXml>::escape_xml(&self.key),", "            &self.key,", "metadata keys not escaped")
+m("c17-plain-unsorted", ["C17"], "src/asplain.rs",
+  "        .map(|(k, v)| format!(\"- {}: {:.2}\", k, v))\n        .collect::<Vec<String>>();\n    entries.sort();", "        .map(|(k, v)| format!(\"- {}: {:.2}\", k, v))\n        .collect::<Vec<String>>();", "by-key tables printed in hash order")
+m("c17-plain-tot-is-ren", ["C17"], "src/asplain.rs",
+  "        let tot = we_b.tot();", "        let tot = we_b.ren;", "C_ep tot printed as ren")
+m("c17-xml-epm2-from-a", ["C17"], "src/asctexml.rs",
+  "        let RenNrenCo2 { ren, nren, .. } = self.balance_m2.we.b;", "        let RenNrenCo2 { ren, nren, .. } = self.balance_m2.we.a;", "XML Epm2 from step A")
+m("c17-json-field-not-read-back", ["C17"], "src/types/balance/all_carriers.rs",
+  "    /// Exported energy to nEPB services\n    pub nepus: f32,\n}", "    /// Exported energy to nEPB services\n    #[serde(skip_deserializing)]\n    pub nepus: f32,\n}", "one field is written but not read back")
+# ---- C18
+m("c18-F8-reverted", ["C18"], "src/components.rs",
+  "        write!(f, \"{}\\n{}{}\", meta_lines, data_lines, needs_lines)", "        write!(f, \"{}\\n{}\", meta_lines, data_lines)", "F8 reverted")
+m("c18-out-one-decimal", ["C18"], "src/types/energy/out.rs",
+  "            .map(|v| format!(\"{:.2}\", v))", "            .map(|v| format!(\"{:.1}\", v))", "SALIDA printed with one decimal")
+m("c18-meta-equals", ["C18"], "src/types/tmeta.rs",
+  "        write!(f, \"#META {}: {}\", self.key, self.value)", "        write!(f, \"#META {}= {}\", self.key, self.value)", "metadata printed with = (does not parse back)")
+m("c18-comment-without-hash", ["C18"], "src/types/energy/prod.rs",
+  "            format!(\" # {}\", self.comment)", "            format!(\" {}\", self.comment)", "production comment printed without #")
+m("c18-factor-two-decimals", ["C18"], "src/types/factor.rs",
+  "\"{}, {}, {}, {}, {:.3}, {:.3}, {:.3}{}\"", "\"{}, {}, {}, {}, {:.2}, {:.2}, {:.2}{}\"", "factors printed with two decimals")
+m("c18-aux-prints-abs", ["C18"], "src/types/energy/aux.rs",
+  "            .map(|v| format!(\"{:.2}\", v))", "            .map(|v| format!(\"{:.2}\", v * 1.01))", "auxiliary values printed 1 % too large")
+# ---- C19
+m("c19-kexp-meta-wins", ["C19"], "src/bin/cteepbd.rs",
+  "        (_, Some(k_cli)) => (\"usuario\", k_cli),\n        (Some(k_meta), None) => (\"metadatos\", k_meta),", "        (Some(k_meta), _) => (\"metadatos\", k_meta),\n        (_, Some(k_cli)) => (\"usuario\", k_cli),", "metadata k_exp beats the option")
+m("c19-area-validate-lt-zero", ["C19"], "src/bin/cteepbd.rs",
+  "    if arearef <= 1e-3 {", "    if arearef < 0.0 {", "areas in [0, 0.001] accepted")
+m("c19-loc-option-ignored-when-meta", ["C19"], "src/bin/cteepbd.rs",
+  "    let (orig_fp, param_fp, fp_opt) = match (fp_path_cli, loc_cli, loc_meta) {", "    let loc_cli = if loc_meta.is_some() { None } else { loc_cli };\n    let (orig_fp, param_fp, fp_opt) = match (fp_path_cli, loc_cli, loc_meta) {", "-l ignored when the file has CTE_LOCALIZACION")
+m("c19-setmeta-kexp-with-meta-value", ["C19"], "src/bin/cteepbd.rs",
+  "    components.set_meta(\"CTE_KEXP\", &format!(\"{:.1}\", kexp));", "    components.set_meta(\"CTE_KEXP\", &format!(\"{:.1}\", kexp_meta.unwrap_or(kexp)));", "emitted CTE_KEXP keeps the shadowed metadata value")
+m("c19-F9-reverted", ["C19"], "src/bin/cteepbd.rs",
+  "            components.set_meta(\"CTE_LOCALIZACION\", l_cli);\n", "", "F9 reverted")
